@@ -99,12 +99,21 @@ def _sqlrules(v: MVal, pref, backtrack) -> bool:
     return is_sql(v.engine) or (pref is not None and is_sql(pref) and backtrack and pref != v.engine)
 
 
+def _order_pinned(v: MVal, pref) -> bool:
+    """A SQL relation whose root SELECT carries a (total or merged) sort and no slice yet: a calculation or selection
+    applied to it in the same engine does not change the relative order of the rows that remain, so a later slice
+    must still be taken in that order - or the call that makes this impossible must refuse."""
+    return is_sql(v.engine) and v.sql_state == "sorted" and v.order_det and pref in (None, v.engine)
+
+
 def m_calc(v: MVal, tag, e, pref=None, backtrack=True) -> MVal:
     f = lambda rows: [{**r, tag: eval_expr(e, r)} for r in rows]
     sqlr = _sqlrules(v, pref, backtrack)
+    pinned = _order_pinned(v, pref)
     return v.derive(
         cols=v.cols + (tag,), rows=f(v.rows), upper=None if v.upper is None else f(v.upper),
-        order_det=v.order_det and not sqlr, sql_state=None, pending_sort=False,
+        order_det=v.order_det and (not sqlr or pinned), sql_state="sorted" if pinned else None,
+        pending_sort=v.pending_sort if pinned else False,
         hist=("calc", v.hist, tag, _t(e)),
     )
 
@@ -129,9 +138,11 @@ def m_proj(v: MVal, cols, pref=None, backtrack=True) -> MVal:
 def m_sel(v: MVal, p, pref=None, backtrack=True) -> MVal:
     f = lambda rows: [r for r in rows if eval_pred(p, r)]
     sqlr = _sqlrules(v, pref, backtrack)
+    pinned = _order_pinned(v, pref)
     return v.derive(
         rows=f(v.rows), upper=None if v.upper is None else f(v.upper),
-        count_det=v.bag_det, order_det=v.order_det and not sqlr, sql_state=None, pending_sort=False,
+        count_det=v.bag_det, order_det=v.order_det and (not sqlr or pinned), sql_state="sorted" if pinned else None,
+        pending_sort=v.pending_sort if pinned else False,
         hist=("sel", v.hist, _t(p)),
     )
 
